@@ -19,6 +19,7 @@ import (
 	"bufio"
 	"bytes"
 	"context"
+	"crypto/tls"
 	"encoding/hex"
 	"encoding/json"
 	"fmt"
@@ -84,11 +85,16 @@ func c13Expand(s c13S) []byte {
 func c13Compress(b []byte) c13S {
 	var out c13S
 	var lit []byte
-	flush := func() {
-		if len(lit) > 0 {
-			out = append(out, c13Seg{H: hex.EncodeToString(lit)})
-			lit = nil
+	flush := func() { // literals in pieces of at most 512 bytes (a long string literal is deep to parse)
+		for len(lit) > 0 {
+			n := len(lit)
+			if n > 512 {
+				n = 512
+			}
+			out = append(out, c13Seg{H: hex.EncodeToString(lit[:n])})
+			lit = lit[n:]
 		}
+		lit = nil
 	}
 	const minRun = 48
 	i := 0
@@ -163,6 +169,7 @@ type c13Rec struct {
 	Ty  int  `json:"ty"`
 	C   c13S `json:"c"`
 	Pad int  `json:"pad,omitempty"`
+	N   int  `json:"n,omitempty"` // > 1: a run of N identical records
 }
 type c13Rule struct {
 	Path   string      `json:"path"`
@@ -199,6 +206,7 @@ type c13In struct {
 	User    string      `json:"user,omitempty"`
 	Headers [][]string  `json:"headers,omitempty"` // name, values...
 	CL      int64       `json:"cl,omitempty"`      // -1 = unknown length
+	TLS     []int       `json:"tls,omitempty"`     // [version, cipher suite]: the request arrived over TLS (no client certificate)
 	Fields  [][2]string `json:"fields,omitempty"`  // responder's header fields
 	RBody   c13S        `json:"rbody,omitempty"`
 }
@@ -239,14 +247,53 @@ func c13EncRec(r c13Rec) []byte {
 	out := []byte{1, byte(r.Ty), 0, 1, byte(len(c) >> 8), byte(len(c)), byte(r.Pad), 0}
 	out = append(out, c...)
 	out = append(out, bytes.Repeat([]byte{0xAA}, r.Pad)...)
+	if r.N > 1 {
+		out = bytes.Repeat(out, r.N)
+	}
 	return out
 }
-func c13RecsTerm(recs []c13Rec) string {
-	it := make([]string, len(recs))
-	for i, r := range recs {
-		it[i] = "(" + cN(uint64(r.Ty)) + ", " + c13Term(r.C) + ", " + cN(uint64(r.Pad)) + ")"
+
+// c13NRecs counts the records of a framing (runs expanded).
+func c13NRecs(recs []c13Rec) int {
+	n := 0
+	for _, r := range recs {
+		if r.N > 1 {
+			n += r.N
+		} else {
+			n++
+		}
 	}
-	return cList(it)
+	return n
+}
+
+// c13RecsTerm: a plain list, or list segments and (repeat r n) runs joined by ++
+func c13RecsTerm(recs []c13Rec) string {
+	one := func(r c13Rec) string {
+		return "(" + cN(uint64(r.Ty)) + ", " + c13Term(r.C) + ", " + cN(uint64(r.Pad)) + ")"
+	}
+	var parts, cur []string
+	flush := func() {
+		if len(cur) > 0 {
+			parts = append(parts, cList(cur))
+			cur = nil
+		}
+	}
+	for _, r := range recs {
+		if r.N > 1 {
+			flush()
+			parts = append(parts, fmt.Sprintf("(repeat %s %d%%nat)", one(r), r.N))
+		} else {
+			cur = append(cur, one(r))
+		}
+	}
+	flush()
+	switch len(parts) {
+	case 0:
+		return cList(nil)
+	case 1:
+		return parts[0]
+	}
+	return "(" + strings.Join(parts, " ++ ") + ")"
 }
 func c13ErrCode(err error) int {
 	switch {
@@ -356,6 +403,7 @@ func c13RunDemux(in *c13In) Result {
 	mc := &c13Conn{r: wire, chunks: append([]int(nil), in.Chunks...)}
 	cl := fastcgi.VerifNewClient(mc)
 	var got []byte
+	var reads []uint64 // n of every Read call
 	code := 0
 	direct := ""
 	func() {
@@ -372,6 +420,7 @@ func c13RunDemux(in *c13In) Result {
 		for _, m := range in.Sizes {
 			p := make([]byte, m)
 			n, err := rd.Read(p)
+			reads = append(reads, uint64(n))
 			got = append(got, p[:n]...)
 			if err != nil {
 				code = c13ErrCode(err)
@@ -389,13 +438,34 @@ func c13RunDemux(in *c13In) Result {
 		sig = "demux:malformed"
 	}
 	return Result{
-		Term: cApp("CDemux", c13RecsTerm(in.Recs), c13Term(in.Tail), cNList(sizes), c13BytesTerm(got), cN(uint64(code)), c13BytesTerm(stderr)),
-		Obs:  map[string]interface{}{"delivered": len(got), "err": code, "stderr": len(stderr)},
-		Sig:  sig, Direct: direct, Nontrivial: len(in.Recs) > 1, Class: fmt.Sprintf("%s:err%d", sig, code),
+		Term: cApp("CDemux", c13RecsTerm(in.Recs), c13Term(in.Tail), cNList(sizes), c13BytesTerm(got), cN(uint64(code)), c13BytesTerm(stderr), cNList(reads)),
+		Obs:  map[string]interface{}{"delivered": len(got), "err": code, "stderr": len(stderr), "reads": len(reads), "longest_run_of_empty_reads": c13EmptyRun(in.Sizes, reads, code)},
+		Sig:  sig, Direct: direct, Nontrivial: c13NRecs(in.Recs) > 1, Class: fmt.Sprintf("%s:err%d", sig, code),
 	}
 }
 
+// c13EmptyRun: longest run of consecutive Read calls (len(p) > 0) that returned (0, nil) — for the log only
+func c13EmptyRun(sizes []int, reads []uint64, code int) int {
+	best, cur := 0, 0
+	for i, n := range reads {
+		last := i == len(reads)-1
+		switch {
+		case sizes[i] == 0:
+		case n == 0 && !(last && code != 0):
+			cur++
+			if cur > best {
+				best = cur
+			}
+		default:
+			cur = 0
+		}
+	}
+	return best
+}
+
 // ---------- serve ----------
+var c13OSEnv = [][2]string{{"C13_SET", "from the environment"}, {"C13_EMPTY", ""}}
+
 var c13Files = []string{
 	"index.php", "a.php", "B.PHP", "app/index.php", "app/x.php", "app/Y.PhP", "app/info.php",
 	"app/static.txt", "app/noidx/readme.md", "app/sub/index.html", "app/sub/home.php",
@@ -435,6 +505,10 @@ func c13Setup() {
 		if err != nil {
 			panic(err)
 		}
+		for _, kv := range c13OSEnv {
+			os.Setenv(kv[0], kv[1])
+		}
+		os.Unsetenv("C13_UNSET")
 		c13Srv = &c13Responder{ln: ln, got: make(chan c13Capture, 64)}
 		go c13Srv.loop()
 		casket.Quiet = true
@@ -517,7 +591,7 @@ func c13HdrTerm(h map[string][]string) string {
 func c13RunServe(in *c13In) Result {
 	c13Setup()
 	fail := func(msg string) Result {
-		return Result{Term: "(CDemux [] [] [] [] 0%N [])", Obs: msg, Class: "serve:setup-error", Sig: "serve:setup-error", Direct: msg}
+		return Result{Term: "(CDemux [] [] [] [] 0%N [] [])", Obs: msg, Class: "serve:setup-error", Sig: "serve:setup-error", Direct: msg}
 	}
 	// --- the directive's real setup ---
 	var sb strings.Builder
@@ -620,6 +694,11 @@ func c13RunServe(in *c13In) Result {
 	req := &http.Request{Method: in.Method, URL: u, Proto: in.Proto, ProtoMajor: 1, ProtoMinor: 1, Header: hdr,
 		Host: in.Host, RemoteAddr: in.Remote, ContentLength: in.CL,
 		Body: c13BodyReader(in, body)}
+	qtls := "None"
+	if len(in.TLS) == 2 {
+		req.TLS = &tls.ConnectionState{Version: uint16(in.TLS[0]), CipherSuite: uint16(in.TLS[1]), HandshakeComplete: true}
+		qtls = "(Some " + cPair(cN(uint64(in.TLS[0])), cN(uint64(in.TLS[1]))) + ")"
+	}
 	ctx := context.WithValue(context.Background(), httpserver.OriginalURLCtxKey, *u)
 	ctx = context.WithValue(ctx, casket.CtxKey("path_prefix"), in.Prefix)
 	if in.User != "" {
@@ -680,9 +759,35 @@ poll:
 	for _, n := range hnames {
 		qh = append(qh, cPair(cStr(n), c13StrList(hdr[n])))
 	}
-	q := fmt.Sprintf("{| q_method := %s; q_path := %s; q_query := %s; q_requri := %s; q_host := %s; q_remote := %s; q_proto := %s; q_headers := %s; q_prefix := %s; q_user := %s; q_cl := %s |}",
+	// what the replacer of the configured env values sees (stdlib parsing results are inputs of the model)
+	var cookies, qargs, osenv []string
+	for _, ck := range (&http.Request{Header: hdr}).Cookies() {
+		cookies = append(cookies, cPair(cStr(ck.Name), cStr(ck.Value)))
+	}
+	qv := u.Query()
+	var qkeys []string
+	for k := range qv {
+		qkeys = append(qkeys, k)
+	}
+	sort.Strings(qkeys)
+	for _, k := range qkeys {
+		qargs = append(qargs, cPair(cStr(k), cStr(qv.Get(k))))
+	}
+	for _, kv := range c13OSEnv {
+		osenv = append(osenv, cPair(cStr(kv[0]), cStr(kv[1])))
+	}
+	hp := func(s string) string {
+		h, p, err := net.SplitHostPort(s)
+		if err != nil {
+			return "None"
+		}
+		return "(Some " + cPair(cStr(h), cStr(p)) + ")"
+	}
+	q := fmt.Sprintf("{| q_method := %s; q_path := %s; q_query := %s; q_requri := %s; q_host := %s; q_remote := %s; q_proto := %s; q_headers := %s; q_prefix := %s; q_user := %s; q_cl := %s; "+
+		"q_cookies := %s; q_qargs := %s; q_osenv := %s; q_host_hp := %s; q_remote_hp := %s; q_tls := %s |}",
 		cStr(in.Method), cStr(in.Path), cStr(in.Query), cStr(u.RequestURI()), cStr(in.Host), cStr(in.Remote), cStr(in.Proto),
-		cList(qh), cStr(in.Prefix), cStr(in.User), cZ(in.CL))
+		cList(qh), cStr(in.Prefix), cStr(in.User), cZ(in.CL),
+		cList(cookies), cList(qargs), cList(osenv), hp(in.Host), hp(in.Remote), qtls)
 	sv := fmt.Sprintf("{| sv_name := %s; sv_port := %s; sv_software := %s; sv_version := %s |}",
 		cStr(fh.ServerName), cStr(fh.ServerPort), cStr(fh.SoftwareName), cStr(fh.SoftwareVersion))
 	var fields []string
@@ -1190,12 +1295,33 @@ func c13GenDemux(r *Rand) *c13In {
 
 func c13Ptr(s string) *string { return &s }
 
+var c13EnvPool = [][2]string{
+	{"AUTH_USER", "{>X-Auth-User}"}, {"REMOTE_USER", "{>X-Auth-User}"}, {"X_UA", "{>User-Agent}"}, {"X_LOWER", "{>x-auth-user}"},
+	{"TLS_CIPHER", "{tls_cipher}"}, {"TLS_PROTO", "{tls_protocol}"}, {"CLIENT_DN", "{tls_client_s_dn}"}, {"CLIENT_FP", "{tls_client_fingerprint}"},
+	{"HTTPS", "{tls_protocol}"}, {"SSL_CIPHER", "{tls_cipher}"},
+	{"ARG_MISSING", "{?missing}"}, {"ARG_A", "{?a}"}, {"ARG_Q", "[{?q}]"}, {"ARG_Y", "{?y}"},
+	{"SESSION", "{~sid}"}, {"COOKIE_A", "{~a}"}, {"COOKIE_NONE", "{~nothere}"},
+	{"MIXED", "u={>X-Auth-User};h={host};m={method};c={tls_cipher};s={~sid}"}, {"REQ_LINE", "{method} {uri} {proto}"},
+	{"ORIG_PATH", "{path}"}, {"QS", "{query}"}, {"QUERY_STRING", "{query}&via=env"}, {"REWRITTEN", "{rewrite_path}?{rewrite_uri}"},
+	{"UNKNOWN", "{nope}"}, {"UNKNOWN2", "a{}b{no such}c"}, {"LABEL1", "{label1}"}, {"LABEL2", "{label2}.{label3}"}, {"LABEL9", "<{label9}>"}, {"LABEL0", "{label0}{labelx}"},
+	{"PEER_PORT", "{port}"}, {"PEER", "{remote}:{port}"}, {"SERVER_NAME", "{hostonly}"}, {"SERVER_PORT", "{server_port}"}, {"HOSTPORT", "{hostonly}|{server_port}|{host}"},
+	{"ENV_SET", "{$C13_SET}"}, {"ENV_DEF", "{$C13_UNSET=dflt}"}, {"ENV_NONE", "<{$C13_UNSET}>"}, {"ENV_EMPTY_DEF", "{$C13_EMPTY=fallback}"},
+	{"ESCAPED", "lit \\{host\\} {host}"}, {"FILE", "{dir}|{file}"}, {"SCHEME", "{scheme}://{host}{uri}"}, {"SCRIPT_NAME", "/front{path}"},
+	{"RESP_HDR", "{<Content-Type}"}, {"STATUS", "{status}/{size}/{latency}"}, {"REQ_ID", "id={request_id};mitm={mitm};frag={fragment}"},
+	{"X_{host}", "name is literal"}, {"{nope}KEY", "{method}"}, {"K{>X-Auth-User}", "{>X-Auth-User}"},
+	{"DOCUMENT_ROOT", "/srv/{hostonly}"}, {"UNPAIRED", "open {host and } close"}, {"TWICE", "{>X-Auth-User}{>X-Auth-User}-{?missing}-{tls_cipher}"},
+}
+
 func c13GenServe(r *Rand) *c13In {
 	in := &c13In{Kind: "serve", CS: r.Chance(20), Proto: r.Pick([]string{"HTTP/1.1", "HTTP/1.1", "HTTP/1.0", "HTTP/2.0"}),
 		Host: r.Pick([]string{"site.test", "site.test:8080", "[::1]:8080", ""}),
 		Remote: r.Pick([]string{"192.0.2.7:51234", "[2001:db8::1]:443", "unix-peer", "10.0.0.1:1"}),
 		Prefix: r.Pick([]string{"/", "/", "", "/blog"}), User: r.Pick([]string{"", "", "alice"}),
 		Query:  r.Pick([]string{"", "", "a=1&b=2", "q=%20x&y", "x.php"})}
+	if r.Chance(20) { // over TLS: versions with / without a mod_ssl name, suites inside / outside casket's table
+		in.TLS = []int{[]int{0x0301, 0x0302, 0x0303, 0x0303, 0x0304, 0x0304, 0x0300}[r.Intn(7)],
+			[]int{0xc02f, 0xc02c, 0xcca8, 0xcca9, 0x1301, 0x1303, 0x002f, 0x000a, 0xc014, 0x9999}[r.Intn(10)]}
+	}
 	// rules
 	nr := r.Range(1, 2)
 	for i := 0; i < nr; i++ {
@@ -1222,6 +1348,12 @@ func c13GenServe(r *Rand) *c13In {
 		for k := r.Intn(3); k > 0; k-- {
 			ru.Env = append(ru.Env, [][2]string{{"APP_ENV", "prod"}, {"FOO", "bar baz"}, {"FOO", "second"}, {"HTTP_X_FROM_ENV", "1"},
 				{"DB_DSN", "mysql:host=db;port=3306"}, {"SERVER_NAME", "override.test"}, {"EMPTY", ""}}[r.Intn(7)])
+		}
+		// values with placeholders: always-valued ones, ones that are EMPTY for this request (absent
+		// header / cookie / query key, TLS and recorder placeholders on plain HTTP, unknown names),
+		// mixed with literals, and entries overriding a standard variable
+		for k := []int{0, 0, 1, 2, 3, 5}[r.Intn(6)]; k > 0; k-- {
+			ru.Env = append(ru.Env, c13EnvPool[r.Intn(len(c13EnvPool))])
 		}
 		in.Rules = append(in.Rules, ru)
 	}
@@ -1290,7 +1422,8 @@ func c13GenServe(r *Rand) *c13In {
 	pool := [][]string{{"Accept", "text/html,application/xhtml+xml;q=0.9"}, {"User-Agent", "verif/1.0 (c13)"},
 		{"X-Forwarded-For", "203.0.113.9", "198.51.100.2"}, {"Cookie", "a=1; b=2"}, {"X-Custom-Header", "v"},
 		{"Accept-Language", "de, en;q=0.5"}, {"X_under", "u"}, {"X-Empty", ""}, {"Authorization", "Basic YTpi"},
-		{"X-A", "dash"}, {"X_a", "underscore"}, {"Referer", "http://site.test/app/x.php?q=1"}, {"X-From-Env", "hdr"}}
+		{"X-A", "dash"}, {"X_a", "underscore"}, {"Referer", "http://site.test/app/x.php?q=1"}, {"X-From-Env", "hdr"},
+		{"X-Auth-User", "alice"}, {"X-Auth-User", "bob {host}", "second"}, {"Cookie", "sid=abc123; a=1"}, {"Cookie", "theme=dark; sid=\"q{method}\""}}
 	for k := r.Intn(6); k > 0; k-- {
 		h := pool[r.Intn(len(pool))]
 		in.Headers = append(in.Headers, append([]string(nil), h...))
@@ -1376,21 +1509,206 @@ func c13GenServe(r *Rand) *c13In {
 	return in
 }
 
+// ---------- run-length boundary framings ----------
+// bufio.Reader (FCGIClient.Request) gives up after 100 consecutive empty reads; runs of stderr
+// records of length 1, 99, 100, 101, 150, 300, 1000 are placed before / inside / after the header
+// block, inside and after the body, and after EndRequest.  Records are tiny, runs are stored
+// run-length encoded (c13Rec.N).
+var c13Runs = []int{1, 99, 100, 101, 150, 300, 1000}
+
+const c13BurstPositions = 6
+
+var c13BurstContents = []string{"E", "", "PHP Notice: x\n", "\n"}
+
+// c13BurstRecs: pos 0 before the first output record, 1 inside the header block (between two
+// output records that each carry part of it), 2 between head and body, 3 inside the body,
+// 4 after the body, 5 after EndRequest (never read).  The result includes EndRequest.
+func c13BurstRecs(head, body []byte, pos, run int, content string, pad int, term bool) []c13Rec {
+	burst := c13Rec{Ty: 7, C: c13Compress([]byte(content)), Pad: pad, N: run}
+	out := func(b []byte) []c13Rec {
+		if len(b) == 0 {
+			return nil
+		}
+		return []c13Rec{{Ty: 6, C: c13Compress(b)}}
+	}
+	var recs []c13Rec
+	add := func(rs ...c13Rec) { recs = append(recs, rs...) }
+	h1, h2 := head[:len(head)/2], head[len(head)/2:]
+	b1, b2 := body[:len(body)/2], body[len(body)/2:]
+	if pos == 0 {
+		add(burst)
+	}
+	add(out(h1)...)
+	if pos == 1 {
+		add(burst)
+	}
+	add(out(h2)...)
+	if pos == 2 {
+		add(burst)
+	}
+	add(out(b1)...)
+	if pos == 3 {
+		add(burst)
+	}
+	add(out(b2)...)
+	if pos == 4 {
+		add(burst)
+	}
+	if term {
+		add(c13Rec{Ty: 6}, c13Rec{Ty: 7})
+	}
+	add(c13EndRec)
+	if pos == 5 {
+		add(burst)
+	}
+	return recs
+}
+
+// c13RandBurstRecs: head and body cut into tiny output records with stderr runs of random
+// (often boundary) length between any two of them.
+func c13RandBurstRecs(r *Rand, data []byte) []c13Rec {
+	var recs []c13Rec
+	burst := func() {
+		n := c13Runs[r.Intn(len(c13Runs))]
+		if r.Chance(40) {
+			n = r.Range(1, 1200)
+		}
+		recs = append(recs, c13Rec{Ty: 7, C: c13Compress([]byte(c13BurstContents[r.Intn(len(c13BurstContents))])), Pad: []int{0, 0, 7, 1}[r.Intn(4)], N: n})
+	}
+	if r.Chance(40) {
+		burst()
+	}
+	for len(data) > 0 {
+		n := r.Range(1, 9)
+		if n > len(data) {
+			n = len(data)
+		}
+		recs = append(recs, c13Rec{Ty: 6, C: c13Compress(data[:n])})
+		data = data[n:]
+		if r.Chance(12) {
+			burst()
+		}
+	}
+	if r.Chance(50) {
+		recs = append(recs, c13Rec{Ty: 6})
+	}
+	if r.Chance(30) {
+		burst()
+	}
+	recs = append(recs, c13EndRec)
+	if r.Chance(15) {
+		burst()
+	}
+	return recs
+}
+
+func c13Head(fields [][2]string) []byte {
+	var head []byte
+	for _, f := range fields {
+		head = append(head, (f[0] + ": " + f[1] + "\r\n")...)
+	}
+	return append(head, "\r\n"...)
+}
+
+// k < len(c13Runs)*c13BurstPositions: the k-th (position, run length) combination; beyond: random
+func c13BurstFraming(r *Rand, k int, head, body []byte) []c13Rec {
+	if k < len(c13Runs)*c13BurstPositions {
+		pos, run := k%c13BurstPositions, c13Runs[k/c13BurstPositions]
+		return c13BurstRecs(head, body, pos, run, c13BurstContents[k%len(c13BurstContents)], []int{0, 3, 0, 7}[k%4], k%3 == 0)
+	}
+	return c13RandBurstRecs(r, append(append([]byte(nil), head...), body...))
+}
+
+func c13GenServeBurst(r *Rand, k int) *c13In {
+	in := &c13In{Kind: "serve", Proto: "HTTP/1.1", Host: "site.test:8080", Remote: "192.0.2.7:51234", Prefix: "/",
+		Method: r.Pick([]string{"GET", "GET", "POST", "HEAD"}), Path: r.Pick([]string{"/index.php", "/app/x.php", "/a.php/extra"}),
+		Query: r.Pick([]string{"", "a=1"})}
+	in.Rules = []c13Rule{{Path: "/", Preset: true}}
+	if r.Chance(15) {
+		in.TLS = []int{0x0304, 0x1301}
+	}
+	if r.Bool() {
+		in.Rules[0].Env = [][2]string{c13EnvPool[r.Intn(len(c13EnvPool))]}
+	}
+	in.Headers = [][]string{{"User-Agent", "verif/1.0 (c13 burst)"}}
+	if in.Method == "POST" {
+		n := r.Range(0, 40)
+		in.Body = c13Compress(c13Pat(r.Intn(251), n))
+		in.CL = int64(n)
+		in.Headers = append(in.Headers, []string{"Content-Length", strconv.Itoa(n)})
+	}
+	if r.Chance(70) {
+		in.Fields = append(in.Fields, [2]string{"Status", r.Pick([]string{"200 OK", "404 Not Found", "302 Found", "500 Internal Server Error"})})
+	}
+	in.Fields = append(in.Fields, [2]string{"Content-Type", "text/plain"}, [2]string{"X-Demo", "yes"})
+	rb := []byte("hello world\n")
+	if r.Chance(30) {
+		rb = c13Pat(r.Intn(251), r.Range(0, 300))
+	}
+	in.RBody = c13Compress(rb)
+	in.Recs = c13BurstFraming(r, k, c13Head(in.Fields), rb)
+	return in
+}
+
+func c13GenDemuxBurst(r *Rand, k int) *c13In {
+	in := &c13In{Kind: "demux"}
+	head := []byte("Status: 404 Not Found\r\nContent-Type: text/plain\r\n\r\n")
+	body := c13Pat(r.Intn(251), r.Range(0, 60))
+	in.Recs = c13BurstFraming(r, k, head, body)
+	// the model's record reader costs O(rest of the connection) per record inside Coq: long runs
+	// stay long only where they matter (before / inside the header block)
+	tot := 0
+	for i := range in.Recs {
+		if n := in.Recs[i].N; n > 1 {
+			if tot+n > 1100 || (n > 300 && i > 2) {
+				in.Recs[i].N = 100 + n%200
+			}
+			tot += in.Recs[i].N
+		}
+	}
+	// buffers as bufio uses them (4096), or small ones; one read per record is always enough
+	m := []int{4096, 4096, 64, 7, 1}[r.Intn(5)]
+	reads := c13NRecs(in.Recs) + 4
+	if m < 64 {
+		reads += (len(head) + len(body)) / m
+	}
+	for i := 0; i < reads; i++ {
+		in.Sizes = append(in.Sizes, m)
+	}
+	for k := r.Intn(4); k > 0; k-- {
+		in.Chunks = append(in.Chunks, []int{1, 7, 8, 9, 100, 70000}[r.Intn(6)])
+	}
+	return in
+}
+
 func c13Gen(r *Rand, tier string) []interface{} {
 	nw, nd, ns, nc := 110, 300, 520, 40
+	nb := len(c13Runs) * c13BurstPositions
+	nsb, ndb := nb+10, nb+6
 	if tier == "thorough" {
 		nw, nd, ns, nc = 1100, 3000, 5200, 400
+		nsb, ndb = nb+460, nb+300
 	}
 	var out []interface{}
 	for i := 0; i < nw; i++ {
 		out = append(out, c13GenWire(r))
 	}
-	for i := 0; i < nd; i++ {
-		out = append(out, c13GenDemux(r))
+	// the burst cases are spread evenly among the others (they are the expensive ones inside Coq)
+	spread := func(n, nburst int, plain, burst func(i int) interface{}) {
+		b := 0
+		for i := 0; i < n; i++ {
+			out = append(out, plain(i))
+			for b < nburst && (b+1)*n <= (i+1)*nburst {
+				out = append(out, burst(b))
+				b++
+			}
+		}
+		for ; b < nburst; b++ {
+			out = append(out, burst(b))
+		}
 	}
-	for i := 0; i < ns; i++ {
-		out = append(out, c13GenServe(r))
-	}
+	spread(nd, ndb, func(int) interface{} { return c13GenDemux(r) }, func(i int) interface{} { return c13GenDemuxBurst(r, i) })
+	spread(ns, nsb, func(int) interface{} { return c13GenServe(r) }, func(i int) interface{} { return c13GenServeBurst(r, i) })
 	for i := 0; i < nc; i++ {
 		out = append(out, c13GenChild(r))
 	}
@@ -1399,12 +1717,12 @@ func c13Gen(r *Rand, tier string) []interface{} {
 
 func init() {
 	register(&Property{
-		ID: "C13", Imports: "V.Lib V.C13_Model", Judge: "judge", Shard: 50,
+		ID: "C13", Imports: "V.Lib V.C13_Model", Judge: "judge", Shard: 68,
 		Rule: "cases = (wire) real FCGIClient.Do over an in-memory connection, raw bytes decoded in Coq by a reference responder; " +
-			"(demux) real streamReader over scripted record framings, connection segmentations and caller buffer sizes; " +
-			"(serve) real fastcgi setup + Handler.ServeHTTP on a real directory tree against a byte-level loopback responder; " +
+			"(demux) real streamReader over scripted record framings (incl. runs of 1..1000 consecutive stderr records before/inside/after the header block, inside/after the body, after EndRequest), connection segmentations and caller buffer sizes, every Read call observed; " +
+			"(serve) real fastcgi setup + Handler.ServeHTTP on a real directory tree against a byte-level loopback responder (env entries with placeholders that are valued / empty for the request; the same run-length boundary framings); " +
 			"(child) the same handler against Go's net/http/fcgi responder. " +
-			"non-trivial = wire case with at least one pair or body byte, demux case with >= 2 records, serve case that reached the responder or the next handler; distinct = distinct Coq case term",
+			"non-trivial = wire case with at least one pair or body byte, demux case with >= 2 records (runs expanded), serve case that reached the responder or the next handler; distinct = distinct Coq case term",
 		Gen: c13Gen,
 		Decode: func(raw json.RawMessage) (interface{}, error) {
 			in := &c13In{}
